@@ -98,11 +98,17 @@ def keepAlive : Bytes := [0, 0, 0, 0]
 /-- `MaxBlockSize` (request length cap) and `piece.BlockSize` (block cap, pool buffer size). -/
 def maxBlock : Nat := 16384
 
+/-- Length of the buffers of `blockPool` (`bufferpool.New(piece.BlockSize)`): `Get(n)` re-slices
+one to `n` bytes and panics for larger `n`. -/
+def poolBufLen : Nat := 16384
+
 /-- How `Run` ends. `eof`: `io.EOF` / `io.ErrUnexpectedEOF` (stream ended, silently);
 `oversize`: length prefix above `maxMsgSize`; `blockSize`: request length / piece block above
-16 KiB; `ext`: `UnmarshalBinary` returned an error; `fuel`: model artefact, proved unreachable. -/
+16 KiB; `ext`: `UnmarshalBinary` returned an error; `panic`: a Go run-time panic (slice bounds in
+`blockPool.Get`, `panic("msg unset")`); `fuel`: model artefact. The last two are proved unreachable
+(`reader_total`). -/
 inductive Err
-  | eof | oversize | blockSize | ext | fuel
+  | eof | oversize | blockSize | ext | panic | fuel
   deriving Repr, DecidableEq
 
 /-- Allocation effects: `make([]byte, n)` and `blockPool.Get(n)` (re-slice of a pooled 16 KiB
@@ -136,6 +142,9 @@ def get32x3 (bs : Bytes) : Option (Nat × Nat × Nat × Bytes) :=
       match get32 r2 with
       | none => none
       | some (l, r3) => some (i, b, l, r3)
+
+/-- `length -= 8` on `uint32` (wraps when the frame is shorter than the piece header). -/
+def pieceLen (len : Nat) : Nat := (len + 4294967296 - 8) % 4294967296
 
 /-- The `switch id` of `PeerReader.Run`; `len` is the length prefix minus one, `r` the stream
 after the id byte. -/
@@ -171,11 +180,11 @@ def dispatch (id len : Nat) (r : Bytes) : Step :=
       match get32 r1 with
       | none => .stop .eof []
       | some (b, r2) =>
-        let n := (len + 4294967296 - 8) % 4294967296      -- `length -= 8` on uint32
-        if n > maxBlock then .stop .blockSize [] else
-        match take? n r2 with
-        | none => .stop .eof [.poolGet n]
-        | some (d, r3) => .msg (.piece i b d) [.poolGet n] r3
+        if pieceLen len > maxBlock then .stop .blockSize [] else
+        if pieceLen len > poolBufLen then .stop .panic [] else       -- `(*buf)[:length]` in `blockPool.Get`
+        match take? (pieceLen len) r2 with
+        | none => .stop .eof [.poolGet (pieceLen len)]
+        | some (d, r3) => .msg (.piece i b d) [.poolGet (pieceLen len)] r3
   else if id = 14 then .msg .haveAll [] r
   else if id = 15 then .msg .haveNone [] r
   else if id = 17 then
@@ -273,5 +282,19 @@ def writePiece (served : List (Nat × Nat × Nat)) (i b l : Nat) (data : Bytes) 
     List (Nat × Nat × Nat) × Msg :=
   if served.contains (i, b, l) then (served, .reject i b l)
   else ((i, b, l) :: served, .piece i b data)
+
+/-! ### size limits as predicates (conclusions of `reader_alloc_bound`, also run as oracle) -/
+
+/-- A `make` never exceeds the maximum message size, a pooled block never 16 KiB. -/
+def EffOk (max : Nat) : Eff → Prop
+  | .make n => n ≤ max
+  | .poolGet n => n ≤ maxBlock
+
+/-- What the reader hands on respects the size limits. -/
+def MsgOk (max : Nat) : Msg → Prop
+  | .bitfield d => d.length ≤ max
+  | .piece _ _ d => d.length ≤ maxBlock
+  | .request _ _ l => l ≤ maxBlock
+  | _ => True
 
 end Rain.Codec
